@@ -28,8 +28,8 @@ def worker(case):
     cdir = case["dir"]
     os.makedirs(cdir, exist_ok=True)
     cmd = [case["bin"], case["mode"], str(case["shard"]), str(NSH)] + (["asan"] if case["asan"] else ["plain"]) + [str(case["seed"]), str(case["n"])]
-    r = core.run_proc(cmd, cdir, cpu=600, wall=1500)
-    cid = "%s/%s/%d" % (case["mode"], "asan" if case["asan"] else "guard", case["shard"])
+    r = core.run_proc(cmd, cdir, cpu=600, wall=1500, env=core.san_env(cdir, {"HC_DDEBUG": "1"}) if case.get("ddebug") else None)
+    cid = "%s/%s/%d%s" % (case["mode"], "asan" if case["asan"] else "guard", case["shard"], "/ddebug" if case.get("ddebug") else "")
     out = r.stdout.decode(errors="replace").splitlines()
     summ = None
     viols = []
@@ -105,7 +105,7 @@ class C20(core.Check):
     flavours = ["plain", "asan"]
     rule = ("decode: every byte string of length 0..3 (exhaustive; thorough tier: length 4 too, 2^32 strings) and strings of length 8..11 with every value in the last positions over fixed "
             "prefixes, placed flush against a PROT_NONE page at cursors 0/1/7, for compint_to_size and compint_to_int; encode/decode: every v < 2^21, "
-            "all 2^k, 2^k+-1, random 64-bit; a PRNG sample of strings cross-checked against Python integers; calls whose cursor is already past the limit (1..4000 bytes, pointer inside the inaccessible page) must fail without a read; ASan pass on exact-size heap buffers. "
+            "all 2^k, 2^k+-1, random 64-bit; a PRNG sample of strings cross-checked against Python integers; the same at DDEBUG log level; cursors far beyond 4 GiB (ptr = base+cursor convention, results must not depend on the cursor's magnitude); calls whose cursor is already past the limit (1..4000 bytes, pointer inside the inaccessible page) must fail without a read; ASan pass on exact-size heap buffers. "
             "evaluations = decoder/encoder calls; distinct_nontrivial counts shards that executed calls (2 per shard), not calls")
     assumptions = ["cursor convention of the real callers: ptr = buf + cursor, *length = cursor, max_length = size of buf"]
     worker = staticmethod(worker)
@@ -115,7 +115,7 @@ class C20(core.Check):
 
     def cases(self, ctx):
         out = []
-        modes = ["short", "enc", "longq", "sample", "beyond"] if self.quick else ["short", "enc", "long", "sample", "beyond", "short4"]
+        modes = ["short", "enc", "longq", "sample", "beyond", "far"] if self.quick else ["short", "enc", "long", "sample", "beyond", "far", "short4"]
         for m in modes:
             for sh in range(NSH):
                 out.append({"bin": ctx["plain"], "mode": m, "shard": sh, "asan": False, "seed": self.seed,
@@ -124,5 +124,9 @@ class C20(core.Check):
         for m in (["enc"] if self.quick else ["enc", "short"]):
             for sh in range(NSH):
                 out.append({"bin": ctx["asan"], "mode": m, "shard": sh, "asan": True, "seed": self.seed, "n": 20000})
+        # the same decoder calls with the library logging at its most verbose level (output discarded)
+        for m in (["longq", "beyond", "far", "sample"] if self.quick else ["short", "long", "beyond", "far", "sample"]):
+            for sh in range(NSH if (m != "short" or not self.quick) else 4):
+                out.append({"bin": ctx["plain"], "mode": m, "shard": sh, "asan": False, "seed": self.seed, "n": 2000, "ddebug": True})
         self.exhaustive = True
         return out
